@@ -279,7 +279,9 @@ class Inliner:
             return call, q
         return None
 
-    def expand_generator(self, call, q):
+    def expand_generator(self, call, q, outer_names=None):
+        """outer_names: set of names used by the caller when the expansion becomes the caller's tail (helper locals are then kept
+        under their own names unless they clash)"""
         mod, cls, fn = self.gen_helpers[q]
         self.counter += 1
         pre = '_i%d_' % self.counter
@@ -302,16 +304,25 @@ class Inliner:
         body = [copy.deepcopy(s_) for s_ in fn.body if not (isinstance(s_, ast.Expr) and isinstance(s_.value, ast.Constant))]
         stored = {x.id for s_ in body for x in ast.walk(s_) if isinstance(x, ast.Name) and isinstance(x.ctx, (ast.Store, ast.Del))}
         subst, pre_stmts, mapping = {}, [], {}
+        identity = set()
         for p_ in params:
             a_ = bound[p_]
+            if outer_names is not None and isinstance(a_, ast.Name) and a_.id == p_:
+                identity.add(p_)         # the wrapper hands its own parameter over under the same name
+                continue
             simple = isinstance(a_, (ast.Constant, ast.Name)) or (isinstance(a_, ast.Attribute) and isinstance(a_.value, ast.Name))
             if simple and p_ not in stored:
                 subst[p_] = a_
+            elif outer_names is not None and p_ not in outer_names:
+                identity.add(p_)
+                pre_stmts.append(ast.copy_location(ast.Assign(targets=[ast.Name(id=p_, ctx=ast.Store())], value=a_), call))
             else:
                 mapping[p_] = pre + p_
                 pre_stmts.append(ast.copy_location(ast.Assign(targets=[ast.Name(id=pre + p_, ctx=ast.Store())], value=a_), call))
         for n_ in stored:
-            if n_ not in mapping:
+            if n_ not in mapping and n_ not in identity:
+                if outer_names is not None and n_ not in outer_names:
+                    continue
                 mapping[n_] = pre + n_
         rn = _Rename(mapping, subst)
         body = [rn.visit(s_) for s_ in body]
@@ -342,8 +353,9 @@ class Inliner:
             return
         saved = self.gen_helpers
         self.gen_helpers = self.tail_gen_helpers
+        outer = {x.id for s_ in fn.body[:-1] for x in ast.walk(s_) if isinstance(x, ast.Name)} | {a_.arg for a_ in fn.args.args + fn.args.kwonlyargs}
         try:
-            r = self.expand_generator(call, hq)
+            r = self.expand_generator(call, hq, outer_names=outer)
         finally:
             self.gen_helpers = saved
         if r is None:
